@@ -86,6 +86,18 @@ var leafCatalog = []leafSpec{
 	{"*Stamp", 1, "text-leaf", "", "", "", ""},
 	{"time.Time", 1, "text-leaf", "", "", "", ""},
 	{"net.IP", 2, "text-leaf", "", keyFlagTextSlice, "", ""},
+	// uintptr-kind leaves: accepted by the flag sources and the decoders, NOT by
+	// the string-casting path (env must answer a well-formed number with an error)
+	{expr: "uintptr", w: 2, class: "uintptr-kind"},
+	{expr: "Handle", w: 2, class: "uintptr-kind"},
+	{expr: "*uintptr", w: 1, class: "uintptr-kind"},
+	{expr: "*Handle", w: 1, class: "uintptr-kind"},
+	{expr: "[]uintptr", w: 2, class: "uintptr-kind"},
+	{expr: "[]Handle", w: 1, class: "uintptr-kind"},
+	{expr: "map[string]uintptr", w: 2, class: "uintptr-kind"},
+	{expr: "map[string]Handle", w: 1, class: "uintptr-kind"},
+	{expr: "map[uintptr]string", w: 1, class: "uintptr-kind", decKey: keyTomlMapKey},
+	{expr: "map[Handle]int", w: 1, class: "uintptr-kind", decKey: keyTomlMapKey},
 	// predeclared types for contrast
 	{"int", 2, "predeclared", "", "", "", ""},
 	{"string", 2, "predeclared", "", "", "", ""},
@@ -159,6 +171,9 @@ var embedCatalog = []struct {
 }
 
 func keyFor(l leafSpec, source string) string {
+	if l.decKey == keyTomlMapKey && source != "toml" {
+		l.decKey = "" // only the TOML decoder is affected
+	}
 	switch source {
 	case "manglers": // the manglers test holds the string caster (the parse.String path) and the recursing manglers
 		if l.decKey != "" {
